@@ -254,6 +254,18 @@ macro_rules! imp {
 imp!(u64, 9, new64, pools64, digest64, snap64, op64, 64, TestMarketConfig::<u64, 9>::default());
 imp!(u128, 20, new128, pools128, digest128, snap128, op128, 128, default_cfg128());
 
+/// the market ops of the `mkt` engine on a bare market (used by the `lp` engine, whose sessions are
+/// the position engine's): `None` = bad-op, otherwise the response without digest. Panics are
+/// reported as `err Panic`.
+pub fn market_op64(m: &mut TestMarket<u64, 9>, op: &str, a: &[&str]) -> Option<String> {
+    match catch_unwind(AssertUnwindSafe(|| op64(m, op, a))) { Ok(r) => r, Err(_) => Some("err Panic".into()) }
+}
+pub fn market_op128(m: &mut TestMarket<u128, 20>, op: &str, a: &[&str]) -> Option<String> {
+    match catch_unwind(AssertUnwindSafe(|| op128(m, op, a))) { Ok(r) => r, Err(_) => Some("err Panic".into()) }
+}
+pub fn market_snap64(m: &TestMarket<u64, 9>) -> Snap { snap64(m) }
+pub fn market_snap128(m: &TestMarket<u128, 20>) -> Snap { snap128(m) }
+
 #[derive(Default)]
 pub struct Engine {
     pub db: HashMap<String, AnyMarket>,
